@@ -50,6 +50,9 @@ def main(tier='quick'):
         # nothing to move and no destination (what the default on_receive_move answers): still exactly one final response
         tr, extra = K.run_move_scp(rng, pol, rng.choice(K.MIDS), rng.choice([1, 3, 255]), 0, [], known=False)
         add(tr, extra, {'svc': 'qr_move_scp', 'n': 0, 'outcomes': [], 'policy': str(pol), 'destination': 'unknown'})
+        # sub-operations announced, none supplied: still exactly one final response
+        tr, extra = K.run_move_scp(rng, pol, rng.choice(K.MIDS), rng.choice([1, 3, 255]), 2, [], supplied=0)
+        add(tr, extra, {'svc': 'qr_move_scp', 'n': 2, 'supplied': 0, 'outcomes': [], 'policy': str(pol)})
         for n in (7, 20, 50):
             tr, extra = K.run_move_scp(rng, pol, rng.choice(K.MIDS), 1, n, [rng.choice(outs) for _ in range(n)])
             add(tr, extra, {'svc': 'qr_move_scp', 'n': n, 'policy': str(pol)})
